@@ -76,6 +76,12 @@ func SmallWindowPos(r *Rand) posTypes.Params {
 	return p
 }
 
+type aclChange struct {
+	key      string
+	old, new *Actor
+	h        int64
+}
+
 type ExtendedAddr struct {
 	Owner *Actor
 	Addr  sdk.Address
@@ -109,6 +115,7 @@ type World struct {
 	Forced       []func() *TxSpec    // transactions delivered first in the next block
 	ForcedLabel  []string
 	WhaleActor  *Actor
+	lastACL     *aclChange // the latest ownership hand-over attempt (key, former and new owner, block)
 	Extended    []ExtendedAddr // accounts living at an actor's address plus extra bytes (funded by sends to such addresses)
 	ForeignAcct sdk.Address    // genesis account whose recorded public key is ForeignKey's (it does not hash to the address)
 	ForeignKey  *Actor
